@@ -162,7 +162,7 @@ def ctor_variants(rng, cfg, cases, tags, n):
 
 
 def run(chk, replay=None):
-    proof = proof_check_streams(PID, "C08Devices")
+    proof = proof_check_streams(PID, "C08Devices", extra=("C08Gear",))
     drv = build_driver(); exe = build_harness("devices"); cfg = harness_config(exe)
     if replay:
         r = json.load(open(replay)); c = r["case"]
